@@ -113,6 +113,19 @@ func (p Struct) HasPtr(i uint16) bool {
 	return p.seg.readRawPointer(p.pointerAddress(i)) != 0
 }
 
+// hasNonNullPtr reports whether the i'th pointer (i < PointerCount) reads
+// as something other than a null pointer.  Unlike a test of the raw
+// pointer word, a far pointer whose landing pad holds a null pointer is
+// null, as Ptr reports it.
+func (p Struct) hasNonNullPtr(i uint16) bool {
+	addr := p.pointerAddress(i)
+	if p.seg.readRawPointer(addr) == 0 {
+		return false
+	}
+	_, _, val, err := p.seg.resolveFarPointer(addr)
+	return err != nil || val != 0
+}
+
 // SetPtr sets the i'th pointer in the struct to src.
 func (p Struct) SetPtr(i uint16, src Ptr) error {
 	if p.seg == nil || i >= p.size.PointerCount {
